@@ -52,7 +52,9 @@ def run(out):
         cases.append(pc.random_pops(rng))
     qcases = [pc.random_qops(rng) for _ in range(1500 if out.tier == 'quick' else 100000)]
     icases = [pc.random_iops(rng) for _ in range(1500 if out.tier == 'quick' else 100000)]
-    icases += [[0, 3, 0x90, 1, 2, 0, 3, 0x90, 3, 4, 6, 7, 2, 7, 7], [6, 7, 0, 3, 0x90, 1, 2, 7, 6, 7], [0, 3, 0x90, 1, 2, 6, 7, 0, 3, 0x91, 1, 2, 7, 7, 7]]
+    icases += [[0, 3, 0x90, 1, 2, 0, 3, 0x90, 3, 4, 6, 7, 2, 7, 7], [6, 7, 0, 3, 0x90, 1, 2, 7, 6, 7], [0, 3, 0x90, 1, 2, 6, 7, 0, 3, 0x91, 1, 2, 7, 7, 7],
+               # two live iterators advanced alternately; the first runs dry and stays finished when more arrives
+               [0, 6, 0x90, 1, 2, 0x90, 3, 4, 6, 6, 8, 0, 8, 1, 8, 0, 0, 3, 0x91, 5, 6, 8, 0, 8, 1, 8, 1]]
     jobs = pc.chunk_jobs(cases, 'pops', pc.COMP_POPS) + pc.chunk_jobs(qcases, 'qops', pc.COMP_QOPS) + pc.chunk_jobs(icases, 'iops', pc.COMP_IOPS)
     for tag, rec in core.pmap(pc.job, jobs):
         core.merge_into(out, rec, tag)
@@ -75,7 +77,7 @@ def run(out):
     out.components['ctor (implementation-only)'] = {'cases': n}
     out.extra['live_iterator_histories'] = len(icases)
     out.rule = ('operation histories on a real Parser (feed with list/bytes/bytearray, feed_byte, get_message, pending, list(parser), '
-                'partial iteration; and histories in which one iterator is kept alive across feeds, get_message calls and other iterations) compared step by step with the model, final queue included: for %d random streams every 2-way '
+                'partial iteration; and histories in which any number of iterators are kept alive across feeds, get_message calls and other iterations and advanced in any order) compared step by step with the model, final queue included: for %d random streams every 2-way '
                 'split, byte-at-a-time feeding, mixed feed/feed_byte and random interleavings; concatenated messages cut at every '
                 'offset; random histories; ParserQueue histories (put_bytes, put, poll, iterpoll). Oracle on the implementation: '
                 'retrieved + pending == parse_all(all fed), pending() == number retrievable, get_message() is None iff pending()==0. '
